@@ -71,17 +71,45 @@ Definition opt_gzip (o : opt) : option bool :=
   | _ => None
   end.
 Definition opt_tmo (o : opt) : option Z := match o with OTimeout t => Some t | _ => None end.
+(** Transport security: WithInsecure, or the scheme of WithEndpointURL ("https" = TLS). *)
+Definition url_insecure (u : url) : bool := negb (bytes_eqb (u_scheme u) https_name).
+Definition opt_insecure (o : opt) : option bool :=
+  match o with
+  | OInsecure => Some true
+  | OEndpointURL s => option_map url_insecure (parse_url s)
+  | _ => None
+  end.
+(** WithGRPCConn: a connection the user dialled. *)
+Definition opt_conn (o : opt) : option bytes := match o with OGRPCConn t => Some t | _ => None end.
+Definition rd_insecure (v : bytes) : option bool := option_map url_insecure (rd_url v).
 
 (** ** the five settings every exporter must arrive at *)
+(** A gRPC connection supplied by the user decides where the data goes, and the dial options
+    (compression among them) are documented to have no effect. *)
+Definition user_conn (pr : proto) (opts : list opt) : option bytes :=
+  match pr with PGrpc => last_some opt_conn opts | PHttp => None end.
 Definition exp_host (pr : proto) (opts : list opt) (e : env) : bytes :=
-  resolve (last_some opt_host opts) (rd_host (spec_ep e)) (rd_host (gen_ep e)) (default_host pr).
+  match user_conn pr opts with
+  | Some t => t
+  | None => resolve (last_some opt_host opts) (rd_host (spec_ep e)) (rd_host (gen_ep e)) (default_host pr)
+  end.
+(** Plain text iff the highest-precedence source that names a scheme (or WithInsecure) says so;
+    TLS by default. *)
+Definition exp_insecure (pr : proto) (opts : list opt) (e : env) : bool :=
+  match user_conn pr opts with
+  | Some _ => true
+  | None => resolve (last_some opt_insecure opts) (rd_insecure (spec_ep e)) (rd_insecure (gen_ep e)) false
+  end.
 Definition exp_path (f : family) (opts : list opt) (e : env) : bytes :=
   resolve (last_some opt_path opts) (rd_path_specific (spec_ep e))
           (rd_path_generic (sig_path f) (gen_ep e)) (sig_path f).
 Definition exp_hdrs (opts : list opt) (e : env) : hmap :=
   resolve (last_some opt_hdrs opts) (rd_headers (spec_hdr e)) (rd_headers (gen_hdr e)) [].
-Definition exp_gzip (opts : list opt) (e : env) : bool :=
-  resolve (last_some opt_gzip opts) (rd_comp (spec_comp e)) (rd_comp (gen_comp e)) false.
+Definition exp_gzip (pr : proto) (opts : list opt) (e : env) : bool :=
+  match user_conn pr opts with
+  | Some _ => false
+  | None => resolve (last_some opt_gzip opts) (rd_comp (spec_comp e)) (rd_comp (gen_comp e)) false
+  end.
 Definition exp_tmo (opts : list opt) (e : env) : Z :=
   resolve (last_some opt_tmo opts) (rd_timeout (spec_tmo e)) (rd_timeout (gen_tmo e)) default_timeout_ns.
 
@@ -91,6 +119,22 @@ Definition exp_tmo (opts : list opt) (e : env) : Z :=
 Definition env_trimmed (e : env) : bool :=
   trimmed (gen_ep e) && trimmed (spec_ep e) && trimmed (gen_hdr e) && trimmed (spec_hdr e) &&
   trimmed (gen_comp e) && trimmed (spec_comp e) && trimmed (gen_tmo e) && trimmed (spec_tmo e).
+
+(** Transport security is claimed for http / https URLs and with the ..._INSECURE variables
+    unset (the trace and metric exporters let those override the scheme, the log gRPC exporter
+    consults them after the scheme, the log HTTP exporter not at all). *)
+Definition scheme_plain (u : url) : bool :=
+  bytes_eqb (u_scheme u) (str "http") || bytes_eqb (u_scheme u) https_name.
+Definition opt_scheme_ok (o : opt) : bool :=
+  match o with
+  | OEndpointURL s => match parse_url s with Some u => scheme_plain u | None => true end
+  | _ => true
+  end.
+Definition env_scheme_ok (v : bytes) : bool :=
+  match rd_url v with Some u => scheme_plain u | None => true end.
+Definition schemes_ok (opts : list opt) (e : env) : bool :=
+  forallb opt_scheme_ok opts && env_scheme_ok (spec_ep e) && env_scheme_ok (gen_ep e) &&
+  is_nil (spec_insec e) && is_nil (gen_insec e).
 
 (** Every option that sets the URL path gives a tidy one (absolute, already clean). *)
 Definition opt_path_tidy (o : opt) : bool :=
@@ -145,7 +189,8 @@ Definition scrub (e : env) : env :=
   {| gen_ep := blank_unless rd_url (gen_ep e); spec_ep := blank_unless rd_url (spec_ep e);
      gen_hdr := blank_unless rd_headers (gen_hdr e); spec_hdr := blank_unless rd_headers (spec_hdr e);
      gen_comp := blank_unless rd_comp (gen_comp e); spec_comp := blank_unless rd_comp (spec_comp e);
-     gen_tmo := blank_unless rd_timeout (gen_tmo e); spec_tmo := blank_unless rd_timeout (spec_tmo e) |}.
+     gen_tmo := blank_unless rd_timeout (gen_tmo e); spec_tmo := blank_unless rd_timeout (spec_tmo e);
+     gen_insec := gen_insec e; spec_insec := spec_insec e |}.
 
 (** ** the documented lenient readings (trace and metric exporters: "Supported value: gzip";
     a header list keeps its well-formed entries) *)
@@ -264,6 +309,17 @@ Definition bsp_sizes_ok (i : bsp_in) (q b : Z) : bool :=
        | _, None => true
        end
    end)%Z.
+(** The batch size where the rules above pin it to one value ([None]: no claim). *)
+Definition bsp_batch_expected (i : bsp_in) (q : Z) : option Z :=
+  match b_opt_batch i with
+  | Some x => Some (if (x <? 0)%Z then Z.min 512 q else x)
+  | None =>
+      match rd_int (b_env_batch i), nonneg (Some (get_or (rd_int (b_env_queue i)) 2048)) with
+      | Some x, Some qe => if (0 <=? x) && (x <=? qe) then Some x else None
+      | None, Some qe => Some (Z.min 512 qe)
+      | _, None => None
+      end
+  end.
 Definition dur_expected (o : option Z) (v : bytes) (dflt_ms : Z) : Z :=
   match o with Some ns => ns | None => ms_to_ns (get_or (rd_int v) dflt_ms) end.
 
